@@ -246,6 +246,25 @@ fn coarse_case(ctx: &mut Ctx, mix: &str, events: &[String]) {
     }
 }
 
+/// (b') a session accepted by the very poll that sees the interrupt (one fixed schedule per session kind, see shutdown_child `late`)
+fn late_case(ctx: &mut Ctx, kind: &str) {
+    ctx.transitions += 4;
+    ctx.states += 1;
+    match run_child(&["late".into(), kind.to_string()]) {
+        Err(e) => ctx.machinery_error(format!("late {kind}: {e}")),
+        Ok(v) => {
+            ctx.traces_validated += 1;
+            match v["violation"].as_str() {
+                Some(viol) => {
+                    let k = if viol.starts_with("returned-early") { "returned-early" } else if viol.starts_with("never-returns") { "never-returns" } else { "session-lost-response" };
+                    ctx.violation(&format!("C18/late-session/{kind}/{k}"), true, || json!({"mode": "late", "kind": kind, "log": v["log"], "violation": viol}));
+                }
+                None => ctx.pass(&format!("late-session:{kind}"), true, true),
+            }
+        }
+    }
+}
+
 pub fn run(ctx: &mut Ctx) {
     let quick = ctx.quick();
     // (a) fine-grained.  quick: no CONN with preemption bound 4, one CONN with bound 2.  thorough: bounds 8 / 4 / 3 for 0 / 1 / 2 CONN.
@@ -258,6 +277,8 @@ pub fn run(ctx: &mut Ctx) {
     // (a') the protocol model, all of its maximal paths replayed on the child (quick: no connection; thorough: also one connection)
     model_conformance(ctx, 0);
     if !quick { model_conformance(ctx, 1); }
+    // (b') a connection that waits in the accept queue while the interrupt is handled
+    for kind in ["g", "i"] { if ctx.mine() { late_case(ctx, kind) } }
     // (b) coarse-grained
     let mixes: Vec<&str> = if quick { vec!["", "g", "i", "gg", "gi"] } else { vec!["", "g", "i", "gg", "gi", "ii", "ggg", "ggi", "gii", "iii"] };
     for mix in mixes {
@@ -279,6 +300,7 @@ pub fn run(ctx: &mut Ctx) {
 
 pub fn replay(ctx: &mut Ctx, case: &Value) {
     match case["mode"].as_str() {
+        Some("late") => late_case(ctx, case["kind"].as_str().unwrap_or("g")),
         Some("coarse") => {
             let events: Vec<String> = case["events"].as_array().map(|a| a.iter().map(|e| e.as_str().unwrap_or("").to_string()).collect()).unwrap_or_default();
             coarse_case(ctx, case["mix"].as_str().unwrap_or(""), &events);
